@@ -324,7 +324,7 @@ func genJWT(r *vh.Rand) string {
 		if m != "0" && !matched {
 			matched, keys = true, ks
 		}
-		rs = append(rs, m+","+hx(bRealm[r.Intn(len(bRealm))])+","+joinList(ks, "+"))
+		rs = append(rs, m+","+hx(genRealm(r))+","+joinList(ks, "+"))
 	}
 	p := "1"
 	if r.Chance(1, 12) {
